@@ -250,10 +250,8 @@ fn evaluate_against_data_input<'r>(
                         verif_write_json(write_output, &root_record)?;
         }
 
-        
-        
-        if status != Status::PASS {
-            overall = status
+        if status == Status::FAIL {
+            overall = Status::FAIL
         }
     }
     Ok(overall)
